@@ -32,6 +32,7 @@ META = {
              'ers, a second live dataset with the same keys, stored compre'
              'ssed_segmentation files decoded from the format description.'
              " Round 12: regular label structure for compressed_segmentation chunks; a third of the datasets isotropic (cubic chunks and blocks)."
+             " Round 21: chunks handed over as masked arrays (lossless encodings: the data are the chunk)."
              " Round 16/17: the array returned by the previous read_chunk is compared again after the next read."),
     "trusted_base": ["dict model", "independent on_grid predicate",
                      "JPEG tolerance max %d / mean %.1f grey levels on "
@@ -283,8 +284,12 @@ class ChunkIO(RuleBasedStateMachine):
                 return
             self.open_scale = si
         arr = self.content(sc, cc, seed)
-        layout = ds.LAYOUTS[(seed // 7) % 9] if (seed // 7) % 9 < len(
-            ds.LAYOUTS) else "c"
+        layout = ds.LAYOUTS_IO[(seed // 7) % 9] if (seed // 7) % 9 < len(
+            ds.LAYOUTS_IO) else "c"
+        if layout == "masked" and sc["encoding"] == "jpeg":
+            # (the lossless encoders take the data of a masked array; what a
+            # lossy one should store for a masked voxel is stated nowhere)
+            layout = "c"
         narrow = {"uint16": "uint8", "uint32": "uint16", "uint64": "uint32",
                   "float32": "uint16"}.get(self.info["data_type"])
         if (seed // 7) % 9 in (6, 7) and narrow and sc["encoding"] != "jpeg":
